@@ -11,7 +11,7 @@ From TS Require Import Model.MultiFile Spec.C10MultiSpec.
 From TS Require Model.Writer Proofs.C10Multi Proofs.C10MultiWitness.
 From TS Require Import Spec.C10GoGrammar.
 From TS Require Proofs.C10_GOGrammarTok Proofs.C10_GOGrammarSemi Proofs.C10_GOGrammarParse Proofs.C10_GOGrammar Proofs.C10_GOGrammarFile.
-From TS Require Proofs.C10_GOGrammarTagged Proofs.C10_GOGrammarIR.
+From TS Require Proofs.C10_GOGrammarTagged Proofs.C10_GOGrammarIR Proofs.C10_GOGrammarIR2.
 From TS Require Props.C10.
 
 Goal forall (cfg : c10_lexcfg) (t : str), c10_balanced cfg t = true ->
@@ -338,3 +338,17 @@ Goal unicode_ok uc_exec /\ Proofs.C10_GOFile.c10_go_cfg_ok Proofs.C10_GOGrammarF
   contains_sub (lit "ColorDarkBlue Color = ""dark-blue""") Proofs.C10_GOGrammarIR.gi_text = true.
 Proof. exact Props.C10.C10_grammar_go_partial_witness. Qed.
 Print Assumptions Props.C10.C10_grammar_go_partial_witness.
+Goal forall (uc : unicode) (cfg : go_config) (pd : parsed) (text : str),
+    unicode_ok uc -> Proofs.C10_GOFile.c10_go_cfg_ok cfg = true -> Proofs.C10_GOGrammarIR.c10_gog_cfg_ok cfg ->
+    dom_C10 CGO pd = true -> Proofs.C10_GOGrammarIR2.c10_gog_dom2 pd ->
+    go_generate uc cfg pd = Ok text ->
+    exists n : nat, c10_go_recognise text = Some n /\ (List.length (items_of pd) <= n)%nat.
+Proof. exact Props.C10.C10_grammar_go. Qed.
+Print Assumptions Props.C10.C10_grammar_go.
+Goal unicode_ok uc_exec /\ Proofs.C10_GOFile.c10_go_cfg_ok Proofs.C10_GOGrammarFile.gg_cfg = true /\
+  Proofs.C10_GOGrammarIR.c10_gog_cfg_ok Proofs.C10_GOGrammarFile.gg_cfg /\ dom_C10 CGO Proofs.C10_GOGrammarFile.gg_prog = true /\
+  Proofs.C10_GOGrammarIR2.c10_gog_dom2 Proofs.C10_GOGrammarFile.gg_prog /\
+  go_generate uc_exec Proofs.C10_GOGrammarFile.gg_cfg Proofs.C10_GOGrammarFile.gg_prog = Ok Proofs.C10_GOGrammarFile.gg_text /\
+  c10_go_recognise Proofs.C10_GOGrammarFile.gg_text = Some 19%nat.
+Proof. exact Props.C10.C10_grammar_go_in_domain. Qed.
+Print Assumptions Props.C10.C10_grammar_go_in_domain.
